@@ -32,6 +32,36 @@ def gen_int_graph(rnd, scale='unit', n=None):
     return g
 
 
+def gen_rim_graph(rnd):
+    """lat-lon map for one large-radius query at mid/high latitude: nodes 10 cm inside the disc at its most easterly and most
+    westerly points (where a meridian is tangent to the disc; poleward of the centre's parallel), at the four cardinal points,
+    and rings at 0.9 r and 1.1 r; every node is joined to a partner outside the disc (both directions)."""
+    import math
+    from rtc import geo_ref as G
+    c = rnd.choice([(50.0, 4.0), (-35.0, 120.0), (59.0, -75.0), (69.65, 18.95), (-54.8, -68.3), (60.0, 10.0), (0.0, 0.0)])
+    r = rnd.choice([2000.0, 25000.0, 50000.0, 100000.0])
+    d = r / G.R
+    late = math.degrees(math.asin(math.sin(math.radians(c[0])) / math.cos(d)))
+    dlon = math.degrees(math.asin(math.sin(d) / math.cos(math.radians(c[0]))))
+    inner = []
+    for sgn in (1.0, -1.0):
+        e = (late, c[1] + sgn * dlon)
+        f = 1 - 0.1 / r
+        inner.append((c[0] + (e[0] - c[0]) * f, c[1] + (e[1] - c[1]) * f))
+    for b in (0.0, 90.0, 180.0, 270.0):
+        inner.append(G.destination(c, b, r - 0.1))
+    for k in range(rnd.choice([2, 4])):
+        inner.append(G.destination(c, rnd.uniform(0, 360), 0.9 * r))
+    g, nid = {}, 1
+    for p in inner:
+        b = G.bearing(c, p) if hasattr(G, 'bearing') else 0.0
+        out = (p[0] + (p[0] - c[0]) * 0.2, p[1] + (p[1] - c[1]) * 0.2)
+        g[nid] = (p, [nid + 1])
+        g[nid + 1] = (out, [nid])
+        nid += 2
+    return g, (c, r)
+
+
 def build_sqlite(g, d, name='m', use_latlon=False, how='bulk', **kw):
     from leuvenmapmatching.map.sqlite import SqliteMap
     m = SqliteMap(name, use_latlon=use_latlon, dir=d, **kw)
@@ -61,6 +91,10 @@ def build_sqlite(g, d, name='m', use_latlon=False, how='bulk', **kw):
             m.add_edge(a, b, no_index=True, no_commit=True)
         m.db.commit()
         m.reindex_edges()
+    elif how == 'bulk-noindex-last':
+        # the last writing operation is a bulk insert without indexing (neighbour queries see the edges, box queries do not)
+        m.add_nodes(nodes)
+        m.add_edges(edges, no_index=True)
     elif how == 'mixed':
         half = len(nodes) // 2
         m.add_nodes(nodes[:half])
@@ -113,9 +147,13 @@ def same_ranked(got, exp_full, key_of, max_elmt=None, tol=1e-9):
 # ================================================================================================== C11
 def case_C11(seed):
     rnd = _rnd(seed, 'C11')
-    scale = rnd.choice(['unit', 'unit', '1e7', 'deg'])
-    use_latlon = scale == 'deg'
-    g = gen_int_graph(rnd, scale)
+    scale = rnd.choice(['unit', 'unit', '1e7', 'deg', 'deg-rim'])
+    use_latlon = scale in ('deg', 'deg-rim')
+    rim = None
+    if scale == 'deg-rim':
+        g, rim = gen_rim_graph(rnd)
+    else:
+        g = gen_int_graph(rnd, scale)
     lib = metric(use_latlon)
     d = tempfile.mkdtemp(prefix='verif_c11_')
     viol = []
@@ -128,10 +166,12 @@ def case_C11(seed):
         import io, contextlib
         sm, edges = build_sqlite(g, d, use_latlon=use_latlon, how=rnd.choice(['bulk', 'single']))
         pts = [v[0] for v in g.values()]
-        unit = {'unit': 1.0, '1e7': 3.0, 'deg': 200.0}[scale]      # typical length in the metric's unit
-        for q in range(3):
+        unit = {'unit': 1.0, '1e7': 3.0, 'deg': 200.0, 'deg-rim': 200.0}[scale]      # typical length in the metric's unit
+        for q in range(3 if rim is None else 1):
             base = rnd.choice(pts)
-            if use_latlon:
+            if rim is not None:
+                loc = rim[0]
+            elif use_latlon:
                 loc = (base[0] + rnd.uniform(-2e-3, 2e-3), base[1] + rnd.uniform(-2e-3, 2e-3))
             else:
                 loc = (base[0] + rnd.uniform(-1, 1) * unit, base[1] + rnd.uniform(-1, 1) * unit)
@@ -139,6 +179,8 @@ def case_C11(seed):
                 loc = loc + (12.5,)
             r = rnd.choice([0.0, 0.3, 1.0, 2.5, 50.0]) * unit
             max_elmt = rnd.choice([None, None, 1, 3])
+            if rim is not None:
+                loc, r, max_elmt = rim[0], rim[1], None
             exp_n = sorted(((lib.distance(loc, p), k, p) for k, (p, nb) in g.items()), key=lambda t: t[0])
             exp_n = [t for t in exp_n if t[0] < r]
             exp_e = []
@@ -301,7 +343,7 @@ def case_C18(seed):
     g = gen_int_graph(rnd, 'deg' if use_latlon else rnd.choice(['unit', '1e7']))
     d = tempfile.mkdtemp(prefix='verif_c18_')
     viol = []
-    how = rnd.choice(['bulk', 'single', 'deferred', 'mixed'])
+    how = rnd.choice(['bulk', 'single', 'deferred', 'mixed', 'bulk-noindex-last'])
     crs = rnd.choice([{}, {}, {'crs_lonlat': 'EPSG:4258', 'crs_xy': 'EPSG:31370'}])
     cycles = rnd.choice([1, 2, 3])
     try:
